@@ -61,7 +61,8 @@ func (o Opts) proto() *descriptorpb.MethodOptions {
 	mo := &descriptorpb.MethodOptions{}
 	any := false
 	set := func(b bool, ext interface { /* *protoimpl.ExtensionInfo */
-	}) {}
+	}) {
+	}
 	_ = set
 	if o.RPC {
 		proto.SetExtension(mo, gorums.E_Rpc, true)
